@@ -43,6 +43,9 @@ mod subscribers;
 pub mod telemetry;
 mod worterbuch;
 
+#[cfg(feature = "verif")]
+pub mod verif;
+
 pub use config::*;
 use tosub::SubsystemHandle;
 pub use worterbuch_common as common;
